@@ -73,7 +73,7 @@ theorem inStep_loss (s : Nat) (rate : Rat) (now : Int) (st : IStats) (p : Rtcp) 
     cases p with
     | nack _ _ => simp only [inSwitch]; split <;> rfl
     | pli _ _ => simp only [inSwitch]; split <;> rfl
-    | fir _ _ _ => simp only [inSwitch]; split <;> rfl
+    | fir _ _ _ => rfl
     | other _ => rfl
     | rr _ rs => exact foldl_frame _ lossOf (rrStep_loss s rate now) rs st
     | sr _ _ _ _ rs =>
@@ -312,7 +312,7 @@ theorem inStep_remote (s : Nat) (rate : Rat) (now : Int) (st : IStats) (p : Rtcp
     cases p with
     | nack _ _ => simp only [inSwitch, reportsOfPkt]; split <;> rfl
     | pli _ _ => simp only [inSwitch, reportsOfPkt]; split <;> rfl
-    | fir _ _ _ => simp only [inSwitch, reportsOfPkt]; split <;> rfl
+    | fir _ _ _ => rfl
     | other _ => rfl
     | rr _ rs => exact recordIncomingRR_remote s rate now rs st
     | sr _ _ _ _ rs =>
